@@ -18,8 +18,13 @@ def oracle_file(f, tier):
     w = f["written"]
     if "special" in w:
         return None
-    if any(r != ("ok",) for r in w["results"]):
-        return "a write or finalize failed: %r" % (w["results"],)
+    calls0 = f.get("calls") or [("w", i) for i in range(len(f["specs"]))]
+    for c, r in zip(calls0, w["results"]):
+        if c[0] == "x":
+            if r[0] != "err" or r[1] != 8:
+                return "a shape of another type was not refused: %r" % (r,)
+        elif r != ("ok",):
+            return "a write or finalize failed: %r" % (w["results"],)
     buf = w["shp"]["buf"]
     try:
         dec = refesri.strict_decode_shp(buf, require_numbering=True)
@@ -51,12 +56,17 @@ def run(rep, tier, rng):
     files = []
     for i in range(nfiles):
         code = shapes.ALL_CODES[i % 13]
-        f = P.gen_file(rng, code, nshapes=rng.choice([0, 1, 1, 2, 3, 5]), profile=rng.choice(["mixed", "mixed", "exact"]))
-        f["calls"] = P.finalize_placements(rng, len(f["specs"]))
+        prof = rng.choice(["mixed", "mixed", "exact"]) if not (i // 13 == 2 and shapes.dim_of(code) >= 3) else "nom"
+        f = P.gen_file(rng, code, nshapes=rng.choice([0, 1, 1, 2, 3, 5]), profile=prof)
+        # every third file also offers shapes of another type between the writes (refused: they must leave no trace,
+        # not even in the record numbering)
+        other = shapes.gen_ctor(rng, rng.choice([t for t in shapes.ALL_CODES if t != code]), "small")
+        f["calls"] = P.finalize_placements(rng, len(f["specs"]), rejected=(0.5, other) if i % 3 == 1 else None)
         f["ending"] = rng.choice([0, 0, 1])
         files.append(f)
     rep.cov["rule"] = ("%d files (13 types round-robin, 0-5 shapes from the public constructors, special-value float pool incl. "
-                       "NaN in Z/M, measures below NO_DATA, infinities), random finalize placement, ending drop or finalize+drop; "
+                       "NaN in Z/M, measures below NO_DATA, infinities; measured types also without any measure), random finalize "
+                       "placement, refused writes of another type in between, ending drop or finalize+drop; "
                        "real bytes compared with the model's bytes; oracle = independent Python strict validator/decoder "
                        "(gen/refesri.py, shares no code with the library or the Coq model) must accept the real .shp/.shx and "
                        "recover exactly the geometry handed to the writer; the Coq whitepaper transcription (Spec/Esri.v + "
